@@ -114,70 +114,113 @@ theorem keys_mapSet_nodup (m : List (String × Bool)) (k : String) (v : Bool) (h
   · exact List.Nodup.sublist (List.filter_sublist.map _) h
 
 theorem collect_keys_nodup (reg : List (String × Bool)) (hreg : (keys reg).Nodup) :
-    ∀ (names : List String) (acc r : List (String × Bool)), (keys acc).Nodup →
-      collect reg names acc = .ok r → (keys r).Nodup := by
+    ∀ (names : List String) (all : Bool) (acc r : List (String × Bool)), (keys acc).Nodup →
+      collect reg names all acc = .ok r → (keys r).Nodup := by
   intro names
   induction names with
-  | nil => intro acc r ha h; simp [collect] at h; exact h ▸ ha
+  | nil =>
+    intro all acc r ha h
+    simp only [collect, Except.ok.injEq] at h
+    subst h
+    cases all
+    · exact ha
+    · exact hreg
   | cons n ns ih =>
-    intro acc r ha h
+    intro all acc r ha h
     simp only [collect] at h
     split at h
-    · injection h with h; exact h ▸ hreg
+    · exact ih _ _ _ ha h
     · split at h
       · cases h
-      · exact ih _ _ (keys_mapSet_nodup _ _ _ ha) h
+      · exact ih _ _ _ (keys_mapSet_nodup _ _ _ ha) h
 
 theorem findFeatures_order_independent (reg : List (String × Bool)) (names : List String)
     (o₁ o₂ : List (String × Bool) → List (String × Bool))
     (h₁ : ∀ l, (o₁ l).Perm l) (h₂ : ∀ l, (o₂ l).Perm l) (hreg : (keys reg).Nodup) :
     findFeatures reg names o₁ = findFeatures reg names o₂ := by
   unfold findFeatures
-  cases hc : collect reg names [] with
+  cases hc : collect reg names false [] with
   | error e => rfl
   | ok r =>
-    have hk := collect_keys_nodup reg hreg names [] r (by simp [keys]) hc
+    have hk := collect_keys_nodup reg hreg names false [] r (by simp [keys]) hc
     simp only
     rw [sortByName_perm_eq (h₁ r) hk, sortByName_perm_eq (h₂ r) hk]
 
+/-- an unregistered name other than "all" is an error wherever it stands (also behind an "all") -/
 theorem collect_unknown (reg : List (String × Bool)) (n : String) (post : List String)
     (hn : n ≠ "all") (hl : reg.lookup n = none) :
-    ∀ (pre : List String) (acc : List (String × Bool)), "all" ∉ pre →
-      ∃ e, collect reg (pre ++ n :: post) acc = .error e := by
+    ∀ (pre : List String) (all : Bool) (acc : List (String × Bool)),
+      ∃ e, collect reg (pre ++ n :: post) all acc = .error e := by
   intro pre
   induction pre with
-  | nil => intro acc _; exact ⟨n, by simp [collect, hn, hl]⟩
+  | nil => intro all acc; exact ⟨n, by simp [collect, hn, hl]⟩
   | cons p ps ih =>
-    intro acc hp
-    have hp1 : p ≠ "all" := fun e => hp (by simp [e])
-    have hp2 : "all" ∉ ps := fun e => hp (by simp [e])
-    simp only [List.cons_append, collect, hp1, if_false]
-    cases reg.lookup p with
-    | none => exact ⟨p, rfl⟩
-    | some g => exact ih _ hp2
+    intro all acc
+    simp only [List.cons_append, collect]
+    split
+    · exact ih _ _
+    · cases reg.lookup p with
+      | none => exact ⟨p, rfl⟩
+      | some g => exact ih _ _
 
 theorem collect_known (reg : List (String × Bool)) :
-    ∀ (names : List String) (acc : List (String × Bool)),
-      (∀ n ∈ names, n = "all" ∨ (reg.lookup n).isSome = true) → ∃ r, collect reg names acc = .ok r := by
+    ∀ (names : List String) (all : Bool) (acc : List (String × Bool)),
+      (∀ n ∈ names, n = "all" ∨ (reg.lookup n).isSome = true) →
+        ∃ r, collect reg names all acc = .ok r := by
   intro names
   induction names with
-  | nil => intro acc _; exact ⟨acc, rfl⟩
+  | nil => intro all acc _; exact ⟨_, rfl⟩
   | cons n ns ih =>
-    intro acc h
+    intro all acc h
+    have hns : ∀ m ∈ ns, m = "all" ∨ (reg.lookup m).isSome = true :=
+      fun m hm => h m (List.mem_cons_of_mem _ hm)
     simp only [collect]
     split
-    · exact ⟨reg, rfl⟩
+    · exact ih _ _ hns
     · rename_i hne
       rcases h n (by simp) with h1 | h1
       · exact absurd h1 hne
       · cases hl : reg.lookup n with
         | none => rw [hl] at h1; cases h1
-        | some g => exact ih _ (fun m hm => h m (List.mem_cons_of_mem _ hm))
+        | some g => exact ih _ _ hns
+
+/-- once the flag is set (or "all" is among the names still to come) and every name is known, the
+    answer is every registered feature -/
+theorem collect_all (reg : List (String × Bool)) :
+    ∀ (names : List String) (all : Bool) (acc : List (String × Bool)),
+      (∀ n ∈ names, n = "all" ∨ (reg.lookup n).isSome = true) → (all = true ∨ "all" ∈ names) →
+        collect reg names all acc = .ok reg := by
+  intro names
+  induction names with
+  | nil =>
+    intro all acc _ ha
+    rcases ha with ha | ha
+    · simp [collect, ha]
+    · cases ha
+  | cons n ns ih =>
+    intro all acc h ha
+    have hns : ∀ m ∈ ns, m = "all" ∨ (reg.lookup m).isSome = true :=
+      fun m hm => h m (List.mem_cons_of_mem _ hm)
+    simp only [collect]
+    split
+    · exact ih _ _ hns (Or.inl rfl)
+    · rename_i hne
+      have ha' : all = true ∨ "all" ∈ ns := by
+        rcases ha with ha | ha
+        · exact Or.inl ha
+        · rcases List.mem_cons.1 ha with e | e
+          · exact absurd e.symm hne
+          · exact Or.inr e
+      rcases h n (by simp) with h1 | h1
+      · exact absurd h1 hne
+      · cases hl : reg.lookup n with
+        | none => rw [hl] at h1; cases h1
+        | some g => exact ih _ _ hns ha'
 
 /-- without "all", exactly the requested names are selected -/
 theorem collect_keys_mem (reg : List (String × Bool)) :
     ∀ (names : List String) (acc r : List (String × Bool)), "all" ∉ names →
-      collect reg names acc = .ok r → ∀ k, k ∈ keys r ↔ (k ∈ names ∨ k ∈ keys acc) := by
+      collect reg names false acc = .ok r → ∀ k, k ∈ keys r ↔ (k ∈ names ∨ k ∈ keys acc) := by
   intro names
   induction names with
   | nil => intro acc r _ h k; simp [collect] at h; simp [h]
